@@ -2,53 +2,29 @@ package main
 
 import (
 	"fmt"
-	"os"
 	"sort"
 
 	"github.com/diskfs/go-diskfs/filesystem/iso9660"
 
 	"verif/harness/internal/fsx"
 	"verif/harness/internal/memdev"
-	"verif/harness/internal/rawiso"
 )
 
 func main() {
-	rr := os.Args[1] == "rr"
-	deep := os.Args[2] == "deep"
-	n := 9
-	var es []fsx.Entry
-	p := ""
-	for i := 1; i <= n; i++ {
-		if p == "" {
-			p = fmt.Sprintf("Some Directory %d", i)
-		} else {
-			p += fmt.Sprintf("/Some Directory %d", i)
+	es := []fsx.Entry{{Path: ".DS_Store", Data: []byte("a")}, {Path: ".hidden.txt", Data: []byte("b")}, {Path: "normal.txt", Data: []byte("c")}, {Path: "DIR/.DS_Store", Data: []byte("d")}}
+	for _, rr := range []bool{true, false} {
+		d := memdev.New(64 << 20)
+		v, err := fsx.BuildImageOn("iso", d, es, fsx.Opt{Size: 64 << 20, Sector: 2048, IsoOpts: &iso9660.FinalizeOptions{RockRidge: rr, Joliet: !rr}})
+		fmt.Println("rr", rr, "build err:", err)
+		if err != nil {
+			continue
 		}
-		es = append(es, fsx.Entry{Path: p, Dir: true})
-	}
-	es = append(es, fsx.Entry{Path: p + "/leaf file.txt", Data: []byte("leaf")}, fsx.Entry{Path: "Some Directory 1/x.tar.gz", Data: []byte("xx")}, fsx.Entry{Path: "Some Directory 2", Dir: true}, fsx.Entry{Path: "Some Directory 2/y.y", Data: []byte("y")})
-	d := memdev.New(64 << 20)
-	v, err := fsx.BuildImageOn("iso", d, es, fsx.Opt{Size: 64 << 20, Sector: 2048, IsoOpts: &iso9660.FinalizeOptions{RockRidge: rr, DeepDirectories: deep}})
-	fmt.Println("build err:", err)
-	if err != nil {
-		return
-	}
-	w, err := fsx.Walk(v.FS, 1<<20)
-	fmt.Println("walk err:", err)
-	var ps []string
-	for p, n := range w {
-		ps = append(ps, p+" ["+n.Kind+"]")
-	}
-	sort.Strings(ps)
-	for _, p := range ps {
-		fmt.Println("  LIB", p)
-	}
-	iso, err := rawiso.ParseISO(d, 0, 64<<20, 2048)
-	fmt.Println("raw err:", err)
-	if iso != nil {
-		for _, e := range iso.Entries {
-			fmt.Printf("  RAW %s dir=%v lba=%d size=%d flags=%x\n", e.Path, e.IsDir, e.LBA, e.Size, e.Flags)
+		w, _ := fsx.Walk(v.FS, 1<<20)
+		var ps []string
+		for p := range w {
+			ps = append(ps, p)
 		}
-		fmt.Println("  problems:", iso.Problems)
+		sort.Strings(ps)
+		fmt.Println(ps)
 	}
 }
